@@ -162,5 +162,54 @@ theorem millerRabin_spec' {a n : Nat} (ha : 2 ≤ a) (han : a + 2 ≤ n) (hodd :
         · exact hex ⟨r, hr, by rw [key]; exact he⟩
       rw [if_neg this]
 
+theorem bind_wrapped' {α β : Type} (x : W α) (f : α → W β) : (x >>= f).wrapped = (x.wrapped || (f x.val).wrapped) := by
+  cases x; rfl
+theorem bind_val'' {α β : Type} (x : W α) (f : α → W β) : (x >>= f).val = (f x.val).val := by
+  cases x; rfl
+
+/-- Soundness of `is_perfect_square` on the executions in which `curr * curr` never wraps: -/
+theorem perfectSquareLoop_sound (n : Nat) (fuel : Nat) : ∀ prev : Nat,
+    (perfectSquareLoop fuel prev n).val = true → (perfectSquareLoop fuel prev n).wrapped = false → ∃ r, r * r = n := by
+  induction fuel with
+  | zero =>
+    intro prev hv _
+    unfold perfectSquareLoop at hv
+    simp [W.outOfFuel] at hv
+  | succ f ih =>
+    intro prev hv hw
+    unfold perfectSquareLoop at hv hw
+    simp only [bind_val'', bind_wrapped', Bool.or_eq_false_iff] at hv hw
+    obtain ⟨_, _, _, hmul, hrest⟩ := hw
+    have hlt : ¬ (M ≤ (div (add prev (div n prev).val).val 2).val * (div (add prev (div n prev).val).val 2).val) := by
+      simpa [mul] using hmul
+    have hsq : (mul (div (add prev (div n prev).val).val 2).val (div (add prev (div n prev).val).val 2).val).val
+        = (div (add prev (div n prev).val).val 2).val * (div (add prev (div n prev).val).val 2).val := by
+      simp only [mul]
+      exact Nat.mod_eq_of_lt (by omega)
+    split at hv
+    · rename_i heq
+      exact ⟨_, by rw [← hsq]; exact heq⟩
+    · rename_i hne
+      rw [if_neg hne] at hrest
+      split at hv
+      · simp [pure_eq_ok] at hv
+      · rename_i hge
+        rw [if_neg hge] at hrest
+        exact ih _ hv hrest
+
+theorem isPerfectSquare_sound (n : Nat) (hv : (isPerfectSquare n).val = true)
+    (hw : (isPerfectSquare n).wrapped = false) : ∃ r, r * r = n := by
+  unfold isPerfectSquare at hv hw
+  split at hv
+  · rename_i h
+    have : n = 0 ∨ n = 1 := by omega
+    rcases this with h | h
+    · exact ⟨0, by omega⟩
+    · exact ⟨1, by omega⟩
+  · rename_i h
+    rw [if_neg h] at hw
+    simp only [bind_val'', bind_wrapped', Bool.or_eq_false_iff] at hv hw
+    exact perfectSquareLoop_sound n _ _ hv hw.2
+
 end U64
 end Au
